@@ -709,7 +709,8 @@ func (st *Runtime) evalPrimaryExpressionGroup(node Expression) reflect.Value {
 		return st.evalPrimaryExpressionGroup(node.Right)
 	case NodeCallExpr:
 		node := node.(*CallExprNode)
-		baseExpr := st.evalBaseExpressionGroup(node.BaseExpr)
+		// the callee may itself be an index or call expression: m["Method"](), f()()
+		baseExpr := st.evalPrimaryExpressionGroup(node.BaseExpr)
 		if !baseExpr.IsValid() {
 			node.errorf("node %q is nil, not a function", node.BaseExpr)
 		}
